@@ -124,4 +124,33 @@ Section SER.
     { apply series_bound_uniform; [lia|]. intros j Hj. unfold expo. apply const_age_exponent; [exact Hj|exact Hk|exact Ha|lra]. }
     nra.
   Qed.
+  (** the ridge-age plate model: exponent of term j is (A - sqrt(A^2 + j^2 pi^2)) * (v*age/md) with A = v*md/(2 kappa);
+      it is at most the exponent of the first term *)
+  Lemma ridge_age_exponent v md kap age (j : nat) : (1 <= j)%nat -> 0 <= (v * age) / md ->
+    (((v * md) / (2 * kap)) - sqrt (((((v * v) * md) * md) / ((4 * kap) * kap)) + (((INR j * INR j) * PI) * PI))) * ((v * age) / md)
+    <= (((v * md) / (2 * kap)) - sqrt (((((v * v) * md) * md) / ((4 * kap) * kap)) + PI * PI)) * ((v * age) / md).
+  Proof.
+    intros Hj Hs. assert (J : 1 <= INR j) by (change 1 with (INR 1); apply le_INR; exact Hj).
+    apply Rmult_le_compat_r; [exact Hs|].
+    set (Q := (((v * v) * md) * md) / ((4 * kap) * kap)).
+    assert (sqrt (Q + PI * PI) <= sqrt (Q + INR j * INR j * PI * PI)).
+    { apply sqrt_le_1_alt. pose proof PI_RGT_0. assert (1 <= INR j * INR j) by nra. assert (0 < PI * PI) by nra. nra. }
+    lra.
+  Qed.
+
+  Theorem ridge_age_plate_envelope n top bot d md kap v age :
+    top <= bot -> 0 < md -> 0 <= d <= md -> 0 <= (v * age) / md ->
+    let expo := fun fi : R => (((v * md) / (2 * kap)) - sqrt (((((v * v) * md) * md) / ((4 * kap) * kap)) + (((fi * fi) * PI) * PI)))
+                              * ((v * age) / md) in
+    let T := @plate_series R N n 1 (bot - top) d md expo (top + (bot - top) * (d / md)) in
+    let B := INR n * (2 / PI * exp ((((v * md) / (2 * kap)) - sqrt (((((v * v) * md) * md) / ((4 * kap) * kap)) + PI * PI)) * ((v * age) / md))) in
+    top - (bot - top) * B <= T <= bot + (bot - top) * B.
+  Proof.
+    intros Ht Hm Hd Hs expo T B.
+    pose proof (plate_model_overshoot n top bot d md expo Ht Hm Hd) as H. cbv zeta in H. fold T in H.
+    assert (HB : series_bound n 1 expo <= B).
+    { apply series_bound_uniform; [lia|]. intros j Hj. unfold expo. apply ridge_age_exponent; assumption. }
+    assert ((bot - top) * series_bound n 1 expo <= (bot - top) * B) by (apply Rmult_le_compat_l; [lra|exact HB]).
+    destruct H as [H1 H2]. split; [eapply Rle_trans; [|exact H1] | eapply Rle_trans; [exact H2|]]; lra.
+  Qed.
 End SER.
